@@ -1,6 +1,6 @@
 (* C14 proofs: the model of InterfaceBase.__call__ (Model/Adapt.v) meets the PEP 246
    precedence specification (Spec/Pep246.v); the C fast path equals the Python path for every
-   inheritance chain under the current _CALL_CUSTOM_ADAPT propagation. *)
+   inheritance chain under the current _CALL_CUSTOM_ADAPT / _CALL_CUSTOM_PROVIDEDBY logic. *)
 From Coq Require Import List Bool Arith Lia.
 Import ListNotations.
 From ZI Require Import Model.Adapt Spec.Pep246.
@@ -42,7 +42,7 @@ Proof.
   - exists [], ((evs, Yield x) :: t). cbn. split; [reflexivity|]. split; [constructor|]. exists x. auto.
 Qed.
 
-(* ------------------------------------------------------------------ hooks, default adapt, custom adapt *)
+(* ------------------------------------------------------------------ provided-check, hooks, default adapt, custom adapt *)
 
 Definition to_sres (r : res (option value)) : sres :=
   match r with
@@ -50,6 +50,13 @@ Definition to_sres (r : res (option value)) : sres :=
   | Ok (Some VObj) => Yield ReturnObj
   | Ok (Some (VVal v)) => Yield (Return v)
   | Ok None => Pass
+  end.
+
+Definition prov_sres (r : res bool) : sres :=
+  match r with
+  | Raise x => Yield (RaiseE x)
+  | Ok true => Yield ReturnObj
+  | Ok false => Pass
   end.
 
 Lemma hooks_spec hs : forall i,
@@ -63,100 +70,113 @@ Proof.
     + reflexivity.
 Qed.
 
-Lemma default_spec o :
-  first_yield (default_steps o) = let (lg, r) := py_default_adapt o in (lg, to_sres r).
+Lemma prov_spec pdefs o :
+  first_yield (prov_steps pdefs o) = let (lg, r) := prov_mro pdefs o in (lg, prov_sres r).
 Proof.
-  unfold default_steps, py_default_adapt, provided_step. destruct (provides o); cbn [first_yield].
-  - reflexivity.
-  - rewrite hooks_spec. destruct (run_hooks 0 (hooks o)). reflexivity.
+  induction pdefs as [|[i b] rest IH]; cbn [prov_steps prov_mro].
+  - unfold provided_step. destruct (provides o); reflexivity.
+  - destruct b; cbn [first_yield]; try reflexivity.
+    rewrite IH. destruct (prov_mro rest o). reflexivity.
 Qed.
 
-Lemma adapt_spec defs o :
-  first_yield (adapt_steps defs o) =
-  let (lg, r) := adapt_mro py_default_adapt defs o in (lg, to_sres r).
+Lemma default_spec k o :
+  first_yield (default_steps (k_prov k) o) = let (lg, r) := py_default_adapt k o in (lg, to_sres r).
+Proof.
+  unfold default_steps, py_default_adapt. rewrite first_yield_app, prov_spec.
+  destruct (prov_mro (k_prov k) o) as [lp [[|]|x]]; cbn [prov_sres to_sres]; try reflexivity.
+  rewrite hooks_spec. destruct (run_hooks 0 (hooks o)). reflexivity.
+Qed.
+
+Lemma adapt_spec k defs o :
+  first_yield (adapt_steps defs (k_prov k) o) =
+  let (lg, r) := adapt_mro (py_default_adapt k) defs o in (lg, to_sres r).
 Proof.
   induction defs as [|[i b] rest IH]; cbn [adapt_steps adapt_mro].
   - apply default_spec.
   - destruct b; cbn [first_yield]; try reflexivity.
-    rewrite IH. destruct (adapt_mro py_default_adapt rest o). reflexivity.
-Qed.
-
-Lemma finish_spec o lg a :
-  finish o lg a =
-  match to_sres a with
-  | Yield x => (lg, x)
-  | Pass => let (lg', r) := first_yield [alternate_step (alternate o)] in (lg ++ lg', decide r)
-  end.
-Proof.
-  unfold finish, alternate_step. destruct a as [[[|v]|]|x]; cbn; try reflexivity.
-  destruct (alternate o); cbn; rewrite app_nil_r; reflexivity.
+    rewrite IH. destruct (adapt_mro (py_default_adapt k) rest o). reflexivity.
 Qed.
 
 (* ------------------------------------------------------------------ the class of a chain *)
 
-Lemma new_kls_adapt p i cls l :
-  k_adapt (new_kls p i cls l) =
+Lemma new_kls_adapt p isc i cls l :
+  k_adapt (new_kls_gen p isc i cls l) =
   match l_adapt l with Some b => [(i, b)] | None => [] end ++ k_adapt cls.
 Proof.
-  unfold new_kls, has_methods. destruct (l_adapt l); [reflexivity|].
-  destruct (l_other l); reflexivity.
+  unfold new_kls_gen, has_methods. destruct (l_plain l), (l_adapt l), (l_prov l), (l_other l); reflexivity.
 Qed.
 
-Lemma build_kls_adapt p chain : forall i cls,
-  k_adapt (build_kls p i cls chain) = custom_defs i chain ++ k_adapt cls.
+Lemma new_kls_prov p isc i cls l :
+  k_prov (new_kls_gen p isc i cls l) =
+  match l_prov l with Some b => [(i, b)] | None => [] end ++ k_prov cls.
 Proof.
-  induction chain as [|l t IH]; intros i cls; cbn [build_kls custom_defs].
+  unfold new_kls_gen, has_methods. destruct (l_plain l), (l_adapt l), (l_prov l), (l_other l); reflexivity.
+Qed.
+
+Lemma build_kls_adapt p isc chain : forall i cls,
+  k_adapt (build_kls_gen p isc i cls chain) = custom_defs i chain ++ k_adapt cls.
+Proof.
+  induction chain as [|l t IH]; intros i cls; cbn [build_kls_gen custom_defs].
   - reflexivity.
   - rewrite IH, new_kls_adapt, app_assoc. reflexivity.
 Qed.
 
-Lemma chain_adapt p chain : k_adapt (type_of_chain p chain) = custom_defs 0 chain.
-Proof. unfold type_of_chain. rewrite build_kls_adapt. cbn. apply app_nil_r. Qed.
-
-Definition is_nil {A} (l : list A) : bool := match l with [] => true | _ => false end.
-
-(* the invariant the C fast path relies on: the flag sits in the exact class's dict exactly
-   when a custom __adapt__ is visible on its MRO *)
-Definition flag_ok (k : kls) : Prop :=
-  k_flag_own k = negb (is_nil (k_adapt k)) /\ k_flag_mro k = negb (is_nil (k_adapt k)).
-
-Lemma new_kls_flag_ok i cls l : flag_ok cls -> flag_ok (new_kls true i cls l).
+Lemma build_kls_prov p isc chain : forall i cls,
+  k_prov (build_kls_gen p isc i cls chain) = prov_defs i chain ++ k_prov cls.
 Proof.
-  intros [Ho Hm]. unfold new_kls, has_methods, flag_ok.
-  destruct (l_adapt l) as [b|].
-  - cbn. auto.
-  - destruct (l_other l); cbn; [|auto]. rewrite Hm. destruct (k_adapt cls); cbn; auto.
+  induction chain as [|l t IH]; intros i cls; cbn [build_kls_gen prov_defs].
+  - reflexivity.
+  - rewrite IH, new_kls_prov, app_assoc. reflexivity.
 Qed.
 
-Lemma build_kls_flag_ok chain : forall i cls, flag_ok cls -> flag_ok (build_kls true i cls chain).
+Lemma chain_adapt p isc chain : k_adapt (type_of_chain_gen p isc chain) = custom_defs 0 chain.
+Proof. unfold type_of_chain_gen. rewrite build_kls_adapt. cbn. apply app_nil_r. Qed.
+
+Lemma chain_prov p isc chain : k_prov (type_of_chain_gen p isc chain) = prov_defs 0 chain.
+Proof. unfold type_of_chain_gen. rewrite build_kls_prov. cbn. apply app_nil_r. Qed.
+
+(* the invariant the C fast paths rely on: each flag sits in the exact class's dict exactly
+   when an override is visible on its MRO *)
+Definition flag_ok (k : kls) : Prop :=
+  k_flag_own k = negb (is_nil (k_adapt k)) /\ k_flag_mro k = negb (is_nil (k_adapt k)) /\
+  k_pflag_own k = negb (is_nil (k_prov k)).
+
+Lemma new_kls_flag_ok p i cls l : flag_ok cls -> flag_ok (new_kls_gen p true i cls l).
 Proof.
-  induction chain as [|l t IH]; intros i cls H; cbn [build_kls]; [assumption|].
+  intros (Ho & Hm & Hp). unfold new_kls_gen, has_methods, flag_ok.
+  destruct (l_plain l), (l_adapt l) as [b|], (l_prov l) as [q|], (l_other l); cbn;
+    rewrite ?Hm, ?Hp, ?Ho; destruct p, (k_adapt cls), (k_prov cls); cbn; auto.
+Qed.
+
+Lemma build_kls_flag_ok p chain : forall i cls, flag_ok cls -> flag_ok (build_kls_gen p true i cls chain).
+Proof.
+  induction chain as [|l t IH]; intros i cls H; cbn [build_kls_gen]; [assumption|].
   apply IH, new_kls_flag_ok, H.
 Qed.
 
-Lemma chain_flag_ok chain : flag_ok (type_of_chain true chain).
-Proof. apply build_kls_flag_ok. split; reflexivity. Qed.
+Lemma chain_flag_ok p chain : flag_ok (type_of_chain p chain).
+Proof. apply build_kls_flag_ok. repeat split; reflexivity. Qed.
 
 (* ------------------------------------------------------------------ precedence *)
 
-Lemma call_tail evs defs o :
-  (let (l, r) := first_yield ((evs, Pass) :: adapt_steps defs o ++ [alternate_step (alternate o)])
+Lemma call_tail k evs defs o :
+  (let (l, r) := first_yield ((evs, Pass) :: adapt_steps defs (k_prov k) o ++ [alternate_step (alternate o)])
    in (l, decide r)) =
-  let (lg, a) := adapt_mro py_default_adapt defs o in finish o (evs ++ lg) a.
+  let (lg, a) := adapt_mro (py_default_adapt k) defs o in finish o (evs ++ lg) a.
 Proof.
-  pose proof (adapt_spec defs o) as HA.
-  destruct (adapt_mro py_default_adapt defs o) as [lg a].
+  pose proof (adapt_spec k defs o) as HA.
+  destruct (adapt_mro (py_default_adapt k) defs o) as [lg a].
   cbn [first_yield]. rewrite first_yield_app, HA. unfold finish, alternate_step.
   destruct a as [[[|v]|]|x]; cbn [to_sres first_yield decide]; try reflexivity.
   destruct (alternate o); cbn [decide]; rewrite ?app_nil_r; reflexivity.
 Qed.
 
 Lemma py_call_spec_defs k o :
-  py_call k o = let (lg, r) := first_yield (steps (k_adapt k) o) in (lg, decide r).
+  py_call k o = let (lg, r) := first_yield (steps (k_adapt k) (k_prov k) o) in (lg, decide r).
 Proof.
   unfold py_call, steps, py_adapt.
-  pose proof (call_tail [EvGetConform] (k_adapt k) o) as H1.
-  pose proof (call_tail [EvGetConform; EvCallConform] (k_adapt k) o) as H2.
+  pose proof (call_tail k [EvGetConform] (k_adapt k) o) as H1.
+  pose proof (call_tail k [EvGetConform; EvCallConform] (k_adapt k) o) as H2.
   cbn [app] in H1, H2.
   destruct (conf o) as [|e| | |v|e|]; cbn [getattr_conform call_conform apply_conform conform_step
     is_attribute_error is_type_error tb_single].
@@ -172,26 +192,32 @@ Proof.
   - symmetry. exact H2.
 Qed.
 
-Lemma call_follows_precedence p chain o :
-  py_call (type_of_chain p chain) o = spec chain o.
-Proof. rewrite py_call_spec_defs, chain_adapt. reflexivity. Qed.
+Lemma call_follows_precedence_gen p isc chain o :
+  py_call (type_of_chain_gen p isc chain) o = spec chain o.
+Proof. rewrite py_call_spec_defs, chain_adapt, chain_prov. reflexivity. Qed.
+
+Lemma call_follows_precedence p chain o : py_call (type_of_chain p chain) o = spec chain o.
+Proof. apply call_follows_precedence_gen. Qed.
 
 Lemma adapt_follows_precedence p chain o :
   (let (lg, r) := py_adapt (type_of_chain p chain) o in (lg, to_sres r)) = spec_adapt chain o.
-Proof. unfold py_adapt, spec_adapt. rewrite chain_adapt, adapt_spec. reflexivity. Qed.
+Proof.
+  unfold py_adapt, spec_adapt, type_of_chain. rewrite chain_adapt.
+  rewrite <- (chain_prov p true chain), adapt_spec. reflexivity.
+Qed.
 
 (* ------------------------------------------------------------------ laziness *)
 
 Lemma lazy_prefix p chain o :
   exists pre rest,
-    steps (custom_defs 0 chain) o = pre ++ rest /\ Forall passes pre /\
+    steps (custom_defs 0 chain) (prov_defs 0 chain) o = pre ++ rest /\ Forall passes pre /\
     match rest with
     | [] => py_call (type_of_chain p chain) o = (concat (map fst pre), RaiseCouldNotAdapt)
     | s :: _ => exists r, snd s = Yield r /\
                 py_call (type_of_chain p chain) o = (concat (map fst pre) ++ fst s, r)
     end.
 Proof.
-  destruct (first_yield_prefix (steps (custom_defs 0 chain) o)) as (pre & rest & E & F & H).
+  destruct (first_yield_prefix (steps (custom_defs 0 chain) (prov_defs 0 chain) o)) as (pre & rest & E & F & H).
   exists pre, rest. split; [assumption|]. split; [assumption|].
   rewrite call_follows_precedence. unfold spec. destruct rest as [|s rest'].
   - rewrite H. reflexivity.
@@ -240,86 +266,153 @@ Proof.
     + cbn. constructor; [tauto|constructor].
 Qed.
 
-Lemma default_adapt_in_hook o j :
-  In (EvHook j) (fst (py_default_adapt o)) ->
-  provides o = false /\ forall m, m < j -> nth_error (hooks o) m = Some HNone.
-Proof.
-  unfold py_default_adapt. destruct (provides o).
-  - cbn. intros [H|[]]. discriminate.
-  - pose proof (run_hooks_in (hooks o) 0 j) as HR. destruct (run_hooks 0 (hooks o)) as [lg r].
-    cbn [fst] in *. intros [H|H]; [discriminate|]. destruct (HR H) as [_ Hm]. split; [reflexivity|].
-    intros m Hlt. specialize (Hm m). rewrite Nat.sub_0_r in Hm. apply Hm; lia.
-Qed.
-
-Lemma default_adapt_only o x :
-  In x (fst (py_default_adapt o)) -> x = EvProvided \/ exists j, x = EvHook j.
-Proof.
-  unfold py_default_adapt. destruct (provides o).
-  - cbn. intros [H|[]]. auto.
-  - pose proof (run_hooks_only_hooks (hooks o) 0 x) as HR. destruct (run_hooks 0 (hooks o)) as [lg r].
-    cbn [fst] in *. intros [H|H]; [auto|]. destruct (HR H) as (j & -> & _). right. exists j. reflexivity.
-Qed.
-
-Lemma default_adapt_nodup o : NoDup (fst (py_default_adapt o)).
-Proof.
-  unfold py_default_adapt. destruct (provides o).
-  - cbn. constructor; [tauto|constructor].
-  - pose proof (run_hooks_only_hooks (hooks o) 0) as HR. pose proof (run_hooks_nodup (hooks o) 0) as HN.
-    destruct (run_hooks 0 (hooks o)) as [lg r]. cbn [fst] in *. constructor; [|assumption].
-    intros H. destruct (HR _ H) as (j & Hj & _). discriminate.
-Qed.
-
 Definition delegates (d : nat * cbeh) : Prop := snd d = CADelegate.
+Definition pdelegates (d : nat * pbeh) : Prop := snd d = PBDelegate.
+
+(* the log of a provided-check: overrides called, then possibly the built-in check *)
+Lemma prov_mro_only pdefs o x :
+  In x (fst (prov_mro pdefs o)) ->
+  x = EvProvided \/ exists i, x = EvCustomProv i /\ In i (map fst pdefs).
+Proof.
+  induction pdefs as [|[i b] rest IH]; cbn [prov_mro].
+  - cbn. intros [<-|[]]. auto.
+  - destruct b; try (cbn; intros [<-|[]]; right; exists i; cbn; auto).
+    destruct (prov_mro rest o) as [lg r]. cbn [fst map] in *. intros [<-|H].
+    + right. exists i. cbn. auto.
+    + destruct (IH H) as [->|(i' & -> & Hi)]; [auto|right; exists i'; cbn; auto].
+Qed.
+
+Lemma prov_mro_in_builtin pdefs o :
+  In EvProvided (fst (prov_mro pdefs o)) -> Forall pdelegates pdefs.
+Proof.
+  induction pdefs as [|[i b] rest IH]; cbn [prov_mro].
+  - constructor.
+  - destruct b; try (cbn; intros [H|[]]; discriminate).
+    destruct (prov_mro rest o) as [lg r]. cbn [fst] in *. intros [H|H]; [discriminate|].
+    constructor; [reflexivity|auto].
+Qed.
+
+Lemma prov_mro_nodup pdefs o : NoDup (map fst pdefs) -> NoDup (fst (prov_mro pdefs o)).
+Proof.
+  induction pdefs as [|[i b] rest IH]; cbn [prov_mro map fst]; intros HN.
+  - cbn. constructor; [tauto|constructor].
+  - inversion HN as [|? ? Hni HN']; subst.
+    destruct b; try (cbn; constructor; [tauto|constructor]).
+    specialize (IH HN'). pose proof (prov_mro_only rest o (EvCustomProv i)) as HO.
+    destruct (prov_mro rest o) as [lg r]. cbn [fst] in *.
+    constructor; [|assumption]. intros H. destruct (HO H) as [E|(i' & E & Hi)].
+    + discriminate.
+    + inversion E; subst. contradiction.
+Qed.
+
+Lemma provided_passes_mro pdefs o :
+  provided_passes pdefs o = match snd (prov_mro pdefs o) with Ok false => true | _ => false end.
+Proof.
+  unfold provided_passes. rewrite prov_spec. destruct (prov_mro pdefs o) as [lg [[|]|x]]; reflexivity.
+Qed.
+
+Lemma default_adapt_in_hook k o j :
+  In (EvHook j) (fst (py_default_adapt k o)) ->
+  provided_passes (k_prov k) o = true /\ forall m, m < j -> nth_error (hooks o) m = Some HNone.
+Proof.
+  rewrite provided_passes_mro. unfold py_default_adapt.
+  pose proof (prov_mro_only (k_prov k) o (EvHook j)) as HP.
+  destruct (prov_mro (k_prov k) o) as [lp [[|]|x]]; cbn [fst snd] in *.
+  - intros H. destruct (HP H) as [E|(i & E & _)]; discriminate.
+  - pose proof (run_hooks_in (hooks o) 0 j) as HR. destruct (run_hooks 0 (hooks o)) as [lg r].
+    cbn [fst] in *. rewrite in_app_iff. intros [H|H].
+    + destruct (HP H) as [E|(i & E & _)]; discriminate.
+    + destruct (HR H) as [_ Hm]. split; [reflexivity|].
+      intros m Hlt. specialize (Hm m). rewrite Nat.sub_0_r in Hm. apply Hm; lia.
+  - intros H. destruct (HP H) as [E|(i & E & _)]; discriminate.
+Qed.
+
+Definition default_event (x : ev) : Prop :=
+  x = EvProvided \/ (exists j, x = EvHook j) \/ (exists i, x = EvCustomProv i).
+
+Lemma default_adapt_only k o x :
+  In x (fst (py_default_adapt k o)) ->
+  x = EvProvided \/ (exists j, x = EvHook j) \/ (exists i, x = EvCustomProv i /\ In i (map fst (k_prov k))).
+Proof.
+  unfold py_default_adapt.
+  pose proof (prov_mro_only (k_prov k) o x) as HP.
+  destruct (prov_mro (k_prov k) o) as [lp [[|]|r]]; cbn [fst] in *.
+  - intros H. destruct (HP H) as [E|(i & E & Hi)]; eauto.
+  - pose proof (run_hooks_only_hooks (hooks o) 0 x) as HR. destruct (run_hooks 0 (hooks o)) as [lg r].
+    cbn [fst] in *. rewrite in_app_iff. intros [H|H].
+    + destruct (HP H) as [E|(i & E & Hi)]; eauto.
+    + destruct (HR H) as (j & -> & _). eauto.
+  - intros H. destruct (HP H) as [E|(i & E & Hi)]; eauto.
+Qed.
+
+Lemma default_adapt_event k o x : In x (fst (py_default_adapt k o)) -> default_event x.
+Proof.
+  intros H. destruct (default_adapt_only _ _ _ H) as [E|[E|(i & E & _)]]; unfold default_event; eauto.
+Qed.
+
+Lemma default_adapt_in_builtin k o :
+  In EvProvided (fst (py_default_adapt k o)) -> Forall pdelegates (k_prov k).
+Proof.
+  unfold py_default_adapt. pose proof (prov_mro_in_builtin (k_prov k) o) as HP.
+  destruct (prov_mro (k_prov k) o) as [lp [[|]|r]]; cbn [fst] in *; auto.
+  pose proof (run_hooks_only_hooks (hooks o) 0 EvProvided) as HR. destruct (run_hooks 0 (hooks o)) as [lg r].
+  cbn [fst] in *. rewrite in_app_iff. intros [H|H]; [auto|]. destruct (HR H) as (j & E & _). discriminate.
+Qed.
+
+Lemma default_adapt_nodup k o : NoDup (map fst (k_prov k)) -> NoDup (fst (py_default_adapt k o)).
+Proof.
+  intros HN. unfold py_default_adapt.
+  pose proof (prov_mro_only (k_prov k) o) as HP. pose proof (prov_mro_nodup (k_prov k) o HN) as HD.
+  destruct (prov_mro (k_prov k) o) as [lp [[|]|r]]; cbn [fst] in *; auto.
+  pose proof (run_hooks_only_hooks (hooks o) 0) as HR. pose proof (run_hooks_nodup (hooks o) 0) as HH.
+  destruct (run_hooks 0 (hooks o)) as [lg r]. cbn [fst] in *.
+  clear HN. induction lp as [|a lp IH]; cbn [app]; [assumption|].
+  inversion HD; subst. constructor.
+  - rewrite in_app_iff. intros [H|H]; [contradiction|].
+    destruct (HR _ H) as (j & -> & _). destruct (HP (EvHook j)) as [E|(i & E & _)]; [left; reflexivity| |]; discriminate.
+  - apply IH; [|assumption]. intros x Hx. apply HP. right. assumption.
+Qed.
 
 (* events of the default adapt appear only below a stack of delegating customs *)
-Lemma adapt_mro_in_default defs o x :
-  (x = EvProvided \/ exists j, x = EvHook j) ->
-  In x (fst (adapt_mro py_default_adapt defs o)) ->
-  Forall delegates defs /\ In x (fst (py_default_adapt o)).
+Lemma adapt_mro_in_default k defs o x :
+  default_event x ->
+  In x (fst (adapt_mro (py_default_adapt k) defs o)) ->
+  Forall delegates defs /\ In x (fst (py_default_adapt k o)).
 Proof.
   intros Hx. induction defs as [|[i b] rest IH]; cbn [adapt_mro].
   - intros H. split; [constructor|assumption].
-  - destruct b.
-    + cbn. intros [H|[]]. destruct Hx as [->|[j ->]]; discriminate.
-    + cbn. intros [H|[]]. destruct Hx as [->|[j ->]]; discriminate.
-    + cbn. intros [H|[]]. destruct Hx as [->|[j ->]]; discriminate.
-    + destruct (adapt_mro py_default_adapt rest o) as [lg r]. cbn [fst] in *. intros [H|H].
-      * destruct Hx as [->|[j ->]]; discriminate.
-      * destruct (IH H) as [F I]. split; [constructor; [reflexivity|assumption]|assumption].
+  - assert (HN : x <> EvCustom i) by (destruct Hx as [->|[[j ->]|[j ->]]]; discriminate).
+    destruct b; try (cbn; intros [H|[]]; congruence).
+    destruct (adapt_mro (py_default_adapt k) rest o) as [lg r]. cbn [fst] in *. intros [H|H].
+    + congruence.
+    + destruct (IH H) as [F I]. split; [constructor; [reflexivity|assumption]|assumption].
 Qed.
 
-Lemma adapt_mro_only defs o x :
-  In x (fst (adapt_mro py_default_adapt defs o)) ->
-  (exists i, x = EvCustom i /\ In i (map fst defs)) \/ In x (fst (py_default_adapt o)).
+Lemma adapt_mro_only k defs o x :
+  In x (fst (adapt_mro (py_default_adapt k) defs o)) ->
+  (exists i, x = EvCustom i /\ In i (map fst defs)) \/ In x (fst (py_default_adapt k o)).
 Proof.
   induction defs as [|[i b] rest IH]; cbn [adapt_mro].
   - auto.
   - destruct b; try (cbn; intros [<-|[]]; left; exists i; cbn; auto).
-    destruct (adapt_mro py_default_adapt rest o) as [lg r]. cbn [fst map] in *. intros [<-|H].
+    destruct (adapt_mro (py_default_adapt k) rest o) as [lg r]. cbn [fst map] in *. intros [<-|H].
     + left. exists i. cbn. auto.
     + destruct (IH H) as [(i' & -> & Hi)|Hd]; [left; exists i'; cbn; auto|right; assumption].
 Qed.
 
-Lemma adapt_mro_nodup defs o :
-  NoDup (map fst defs) -> NoDup (fst (adapt_mro py_default_adapt defs o)).
+Lemma adapt_mro_nodup k defs o :
+  NoDup (map fst defs) -> NoDup (map fst (k_prov k)) ->
+  NoDup (fst (adapt_mro (py_default_adapt k) defs o)).
 Proof.
-  induction defs as [|[i b] rest IH]; cbn [adapt_mro map fst]; intros HN.
-  - apply default_adapt_nodup.
+  intros HN HP. induction defs as [|[i b] rest IH]; cbn [adapt_mro map fst] in *.
+  - apply default_adapt_nodup, HP.
   - inversion HN as [|? ? Hni HN']; subst.
     destruct b; try (cbn; constructor; [tauto|constructor]).
-    specialize (IH HN'). pose proof (adapt_mro_only rest o (EvCustom i)) as HO.
-    destruct (adapt_mro py_default_adapt rest o) as [lg r]. cbn [fst] in *.
+    specialize (IH HN'). pose proof (adapt_mro_only k rest o (EvCustom i)) as HO.
+    destruct (adapt_mro (py_default_adapt k) rest o) as [lg r]. cbn [fst] in *.
     constructor; [|assumption]. intros H. destruct (HO H) as [(i' & E & Hi)|Hd].
     + inversion E; subst. contradiction.
-    + destruct (default_adapt_only _ _ Hd) as [E|[j E]]; discriminate.
-Qed.
-
-Lemma custom_defs_ge chain : forall i j, In j (map fst (custom_defs i chain)) -> i <= j.
-Proof.
-  induction chain as [|l t IH]; intros i j; cbn [custom_defs]; [cbn; tauto|].
-  rewrite map_app, in_app_iff. intros [H|H].
-  - apply IH in H. lia.
-  - destruct (l_adapt l); cbn in H; [destruct H as [<-|[]]; lia|tauto].
+    + destruct (default_adapt_event _ _ _ Hd) as [E|[[j E]|[j E]]]; discriminate.
 Qed.
 
 Lemma nodup_snoc {A} (l : list A) a : NoDup l -> ~ In a l -> NoDup (l ++ [a]).
@@ -331,11 +424,35 @@ Proof.
     + apply IH; [assumption|]. intuition.
 Qed.
 
+Lemma custom_defs_ge chain : forall i j, In j (map fst (custom_defs i chain)) -> i <= j.
+Proof.
+  induction chain as [|l t IH]; intros i j; cbn [custom_defs]; [cbn; tauto|].
+  rewrite map_app, in_app_iff. intros [H|H].
+  - apply IH in H. lia.
+  - destruct (l_adapt l); cbn in H; [destruct H as [<-|[]]; lia|tauto].
+Qed.
+
 Lemma custom_defs_nodup chain : forall i, NoDup (map fst (custom_defs i chain)).
 Proof.
   induction chain as [|l t IH]; intros i; cbn [custom_defs]; [constructor|].
   rewrite map_app. destruct (l_adapt l); cbn [map fst].
   - apply nodup_snoc; [apply IH|]. intros H. apply custom_defs_ge in H. lia.
+  - rewrite app_nil_r. apply IH.
+Qed.
+
+Lemma prov_defs_ge chain : forall i j, In j (map fst (prov_defs i chain)) -> i <= j.
+Proof.
+  induction chain as [|l t IH]; intros i j; cbn [prov_defs]; [cbn; tauto|].
+  rewrite map_app, in_app_iff. intros [H|H].
+  - apply IH in H. lia.
+  - destruct (l_prov l); cbn in H; [destruct H as [<-|[]]; lia|tauto].
+Qed.
+
+Lemma prov_defs_nodup chain : forall i, NoDup (map fst (prov_defs i chain)).
+Proof.
+  induction chain as [|l t IH]; intros i; cbn [prov_defs]; [constructor|].
+  rewrite map_app. destruct (l_prov l); cbn [map fst].
+  - apply nodup_snoc; [apply IH|]. intros H. apply prov_defs_ge in H. lia.
   - rewrite app_nil_r. apply IH.
 Qed.
 
@@ -376,36 +493,51 @@ Qed.
 
 Lemma lazy_hooks p chain o i :
   In (EvHook i) (fst (py_call (type_of_chain p chain) o)) ->
-  conform_passes (conf o) = true /\ provides o = false /\
+  conform_passes (conf o) = true /\ provided_passes (prov_defs 0 chain) o = true /\
   (forall j, j < i -> nth_error (hooks o) j = Some HNone) /\
   Forall delegates (custom_defs 0 chain).
 Proof.
   intros H. apply py_call_in_adapt in H; [|split; discriminate]. destruct H as [Hc H].
-  unfold py_adapt in H. rewrite chain_adapt in H.
-  apply adapt_mro_in_default in H; [|right; exists i; reflexivity]. destruct H as [F H].
-  apply default_adapt_in_hook in H. destruct H as [Hp Hm]. auto.
+  unfold py_adapt, type_of_chain in H. rewrite chain_adapt in H.
+  apply adapt_mro_in_default in H; [|right; left; exists i; reflexivity]. destruct H as [F H].
+  apply default_adapt_in_hook in H. rewrite chain_prov in H. destruct H as [Hp Hm]. auto.
 Qed.
 
 Lemma lazy_provided p chain o :
   In EvProvided (fst (py_call (type_of_chain p chain) o)) ->
+  conform_passes (conf o) = true /\ Forall delegates (custom_defs 0 chain) /\
+  Forall pdelegates (prov_defs 0 chain).
+Proof.
+  intros H. apply py_call_in_adapt in H; [|split; discriminate]. destruct H as [Hc H].
+  unfold py_adapt, type_of_chain in H. rewrite chain_adapt in H.
+  apply adapt_mro_in_default in H; [|left; reflexivity]. destruct H as [F H].
+  apply default_adapt_in_builtin in H. rewrite chain_prov in H. auto.
+Qed.
+
+Lemma lazy_custom_prov p chain o i :
+  In (EvCustomProv i) (fst (py_call (type_of_chain p chain) o)) ->
   conform_passes (conf o) = true /\ Forall delegates (custom_defs 0 chain).
 Proof.
   intros H. apply py_call_in_adapt in H; [|split; discriminate]. destruct H as [Hc H].
-  unfold py_adapt in H. rewrite chain_adapt in H.
-  apply adapt_mro_in_default in H; [|left; reflexivity]. destruct H as [F _]. auto.
+  unfold py_adapt, type_of_chain in H. rewrite chain_adapt in H.
+  apply adapt_mro_in_default in H; [|right; right; exists i; reflexivity]. destruct H as [F _]. auto.
 Qed.
 
 Lemma log_nodup p chain o : NoDup (fst (py_call (type_of_chain p chain) o)).
 Proof.
-  pose proof (adapt_mro_nodup (custom_defs 0 chain) o (custom_defs_nodup chain 0)) as HN.
-  pose proof (adapt_mro_only (custom_defs 0 chain) o) as HO.
-  destruct (py_call_log_split (type_of_chain p chain) o) as (pre & Hpre & [[_ E]|[_ E]]); rewrite E.
+  set (k := type_of_chain p chain).
+  assert (HA : k_adapt k = custom_defs 0 chain) by apply chain_adapt.
+  assert (HP : k_prov k = prov_defs 0 chain) by apply chain_prov.
+  pose proof (adapt_mro_nodup k (k_adapt k) o) as HN.
+  rewrite HA, HP in HN. specialize (HN (custom_defs_nodup chain 0) (prov_defs_nodup chain 0)).
+  pose proof (adapt_mro_only k (custom_defs 0 chain) o) as HO.
+  destruct (py_call_log_split k o) as (pre & Hpre & [[_ E]|[_ E]]); rewrite E.
   - destruct Hpre as [->| ->]; repeat constructor; cbn; intuition discriminate.
-  - unfold py_adapt. rewrite chain_adapt.
-    assert (HX : forall x, In x (fst (adapt_mro py_default_adapt (custom_defs 0 chain) o)) ->
+  - unfold py_adapt. rewrite HA.
+    assert (HX : forall x, In x (fst (adapt_mro (py_default_adapt k) (custom_defs 0 chain) o)) ->
                  x <> EvGetConform /\ x <> EvCallConform).
     { intros x Hx. destruct (HO x Hx) as [(i & -> & _)|Hd]; [split; discriminate|].
-      destruct (default_adapt_only _ _ Hd) as [->|[j ->]]; split; discriminate. }
+      destruct (default_adapt_event _ _ _ Hd) as [->|[[j ->]|[j ->]]]; split; discriminate. }
     destruct Hpre as [->| ->]; cbn [app].
     + constructor; [|assumption]. intros Hin. apply HX in Hin. tauto.
     + constructor; [|constructor; [|assumption]].
@@ -426,11 +558,13 @@ Qed.
 Lemma spec_after_conform chain o :
   conform_passes (conf o) = true ->
   snd (spec chain o) =
-  decide (snd (first_yield (adapt_steps (custom_defs 0 chain) o ++ [alternate_step (alternate o)]))).
+  decide (snd (first_yield (adapt_steps (custom_defs 0 chain) (prov_defs 0 chain) o
+                            ++ [alternate_step (alternate o)]))).
 Proof.
   unfold spec, steps, conform_passes. cbn [first_yield].
   destruct (conform_step (conf o)) as [evs [|x]]; cbn [snd]; [|discriminate]. intros _.
-  destruct (first_yield (adapt_steps (custom_defs 0 chain) o ++ [alternate_step (alternate o)])).
+  destruct (first_yield (adapt_steps (custom_defs 0 chain) (prov_defs 0 chain) o
+                         ++ [alternate_step (alternate o)])).
   reflexivity.
 Qed.
 
@@ -444,14 +578,24 @@ Proof.
     destruct (first_yield (hook_steps (S i) (t ++ HRaise e :: post))). cbn [snd] in *. assumption.
 Qed.
 
-Lemma adapt_steps_delegates dels : forall rest o,
+Lemma adapt_steps_delegates dels : forall rest pdefs o,
   Forall delegates dels ->
-  snd (first_yield (adapt_steps (dels ++ rest) o)) = snd (first_yield (adapt_steps rest o)).
+  snd (first_yield (adapt_steps (dels ++ rest) pdefs o)) = snd (first_yield (adapt_steps rest pdefs o)).
+Proof.
+  induction dels as [|[i b] t IH]; intros rest pdefs o F; cbn [app]; [reflexivity|].
+  inversion F as [|? ? Hd F']; subst. unfold delegates in Hd. cbn in Hd. subst b.
+  cbn [adapt_steps first_yield]. specialize (IH rest pdefs o F').
+  destruct (first_yield (adapt_steps (t ++ rest) pdefs o)). cbn [snd] in *. assumption.
+Qed.
+
+Lemma prov_steps_delegates dels : forall rest o,
+  Forall pdelegates dels ->
+  snd (first_yield (prov_steps (dels ++ rest) o)) = snd (first_yield (prov_steps rest o)).
 Proof.
   induction dels as [|[i b] t IH]; intros rest o F; cbn [app]; [reflexivity|].
-  inversion F as [|? ? Hd F']; subst. unfold delegates in Hd. cbn in Hd. subst b.
-  cbn [adapt_steps first_yield]. specialize (IH rest o F').
-  destruct (first_yield (adapt_steps (t ++ rest) o)). cbn [snd] in *. assumption.
+  inversion F as [|? ? Hd F']; subst. unfold pdelegates in Hd. cbn in Hd. subst b.
+  cbn [prov_steps first_yield]. specialize (IH rest o F').
+  destruct (first_yield (prov_steps (t ++ rest) o)). cbn [snd] in *. assumption.
 Qed.
 
 Lemma snd_first_yield_app_yield l rest x :
@@ -462,6 +606,14 @@ Proof.
   - assumption.
 Qed.
 
+Lemma snd_first_yield_app_pass l rest :
+  snd (first_yield l) = Pass -> snd (first_yield (l ++ rest)) = snd (first_yield rest).
+Proof.
+  intros H. rewrite first_yield_app. destruct (first_yield l) as [lg [|y]]; cbn [snd] in *.
+  - destruct (first_yield rest). reflexivity.
+  - discriminate.
+Qed.
+
 Lemma exceptions_propagate p chain o e :
   let out := snd (py_call (type_of_chain p chain) o) in
   (conf o = CGetRaise e -> e_kind e <> EAttr -> out = RaiseE (User e)) /\
@@ -470,7 +622,10 @@ Lemma exceptions_propagate p chain o e :
      forall dels i rest, custom_defs 0 chain = dels ++ (i, CARaise e) :: rest ->
      Forall delegates dels -> out = RaiseE (User e)) /\
   (conform_passes (conf o) = true -> Forall delegates (custom_defs 0 chain) ->
-     provides o = false ->
+     forall pdels i rest, prov_defs 0 chain = pdels ++ (i, PBRaise e) :: rest ->
+     Forall pdelegates pdels -> out = RaiseE (User e)) /\
+  (conform_passes (conf o) = true -> Forall delegates (custom_defs 0 chain) ->
+     provided_passes (prov_defs 0 chain) o = true ->
      forall pre post, hooks o = pre ++ HRaise e :: post -> Forall (fun h => h = HNone) pre ->
      out = RaiseE (User e)).
 Proof.
@@ -480,12 +635,17 @@ Proof.
   - intros Hc dels i rest Hd F. rewrite spec_after_conform by assumption. rewrite Hd.
     erewrite snd_first_yield_app_yield; [reflexivity|].
     rewrite adapt_steps_delegates by assumption. reflexivity.
+  - intros Hc F pdels i rest Hd Fp. rewrite spec_after_conform by assumption.
+    erewrite snd_first_yield_app_yield; [reflexivity|].
+    rewrite <- (app_nil_r (custom_defs 0 chain)), adapt_steps_delegates by assumption.
+    cbn [adapt_steps]. unfold default_steps. apply snd_first_yield_app_yield.
+    rewrite Hd, prov_steps_delegates by assumption. reflexivity.
   - intros Hc F Hp pre post Hh Fp. rewrite spec_after_conform by assumption.
     erewrite snd_first_yield_app_yield; [reflexivity|].
     rewrite <- (app_nil_r (custom_defs 0 chain)), adapt_steps_delegates by assumption.
-    cbn [adapt_steps]. unfold default_steps, provided_step. rewrite Hp, Hh. cbn [first_yield].
-    pose proof (hook_steps_raise pre 0 e post Fp) as HR.
-    destruct (first_yield (hook_steps 0 (pre ++ HRaise e :: post))). cbn [snd] in *. assumption.
+    cbn [adapt_steps]. unfold default_steps. rewrite snd_first_yield_app_pass.
+    + rewrite Hh. apply hook_steps_raise, Fp.
+    + unfold provided_passes in Hp. destruct (snd (first_yield (prov_steps (prov_defs 0 chain) o))); congruence.
 Qed.
 
 (* converse: every exception that comes out was raised by one of the behaviours *)
@@ -500,37 +660,67 @@ Proof.
   - intros H. inversion H; subst. exists e. cbn. auto.
 Qed.
 
-Lemma adapt_mro_raise_source defs o lg r :
-  adapt_mro py_default_adapt defs o = (lg, Raise r) ->
-  exists e, r = User e /\ (In (HRaise e) (hooks o) \/ exists i, In (i, CARaise e) defs).
+Lemma prov_mro_raise_source pdefs o : forall lg r,
+  prov_mro pdefs o = (lg, Raise r) -> exists e i, r = User e /\ In (i, PBRaise e) pdefs.
+Proof.
+  induction pdefs as [|[i b] rest IH]; intros lg r; cbn [prov_mro]; [discriminate|].
+  destruct b; try discriminate.
+  - intros H. inversion H; subst. exists e, i. cbn. auto.
+  - destruct (prov_mro rest o) as [lg' r'] eqn:E. intros H. inversion H; subst.
+    destruct (IH _ _ eq_refl) as (e & i' & -> & Hin). exists e, i'. cbn. auto.
+Qed.
+
+Definition raise_source (defs : list (nat * cbeh)) (pdefs : list (nat * pbeh)) (o : obj) (e : exn) : Prop :=
+  In (HRaise e) (hooks o) \/ (exists i, In (i, CARaise e) defs) \/ (exists i, In (i, PBRaise e) pdefs).
+
+Lemma default_adapt_raise_source k o lg r :
+  py_default_adapt k o = (lg, Raise r) -> exists e, r = User e /\ raise_source [] (k_prov k) o e.
+Proof.
+  unfold py_default_adapt. destruct (prov_mro (k_prov k) o) as [lp [[|]|x]] eqn:EP.
+  - discriminate.
+  - destruct (run_hooks 0 (hooks o)) as [lg' r'] eqn:E. intros H. inversion H; subst.
+    destruct (run_hooks_raise_source _ _ _ _ E) as (e & -> & Hin). exists e. split; [reflexivity|]. left. assumption.
+  - intros H. inversion H; subst. destruct (prov_mro_raise_source _ _ _ _ EP) as (e & i & -> & Hin).
+    exists e. split; [reflexivity|]. right. right. exists i. assumption.
+Qed.
+
+Lemma adapt_mro_raise_source k defs o lg r :
+  adapt_mro (py_default_adapt k) defs o = (lg, Raise r) ->
+  exists e, r = User e /\ raise_source defs (k_prov k) o e.
 Proof.
   revert lg. induction defs as [|[i b] rest IH]; intros lg; cbn [adapt_mro].
-  - unfold py_default_adapt. destruct (provides o); [discriminate|].
-    destruct (run_hooks 0 (hooks o)) as [lg' r'] eqn:E. intros H. inversion H; subst.
-    destruct (run_hooks_raise_source _ _ _ _ E) as (e & -> & Hin). exists e. auto.
+  - apply default_adapt_raise_source.
   - destruct b; try discriminate.
-    + intros H. inversion H; subst. exists e. split; [reflexivity|]. right. exists i. cbn. auto.
-    + destruct (adapt_mro py_default_adapt rest o) as [lg' r'] eqn:E. intros H. inversion H; subst.
-      destruct (IH _ eq_refl) as (e & -> & [Hin|[i' Hin]]); exists e; split; auto.
-      right. exists i'. cbn. auto.
+    + intros H. inversion H; subst. exists e. split; [reflexivity|]. right. left. exists i. cbn. auto.
+    + destruct (adapt_mro (py_default_adapt k) rest o) as [lg' r'] eqn:E. intros H. inversion H; subst.
+      destruct (IH _ eq_refl) as (e & -> & [Hin|[[i' Hin]|Hin]]); exists e; split; try reflexivity.
+      * left. assumption.
+      * right. left. exists i'. cbn. auto.
+      * right. right. assumption.
 Qed.
 
 Lemma no_other_exceptions p chain o r :
   snd (py_call (type_of_chain p chain) o) = RaiseE r ->
   exists e, r = User e /\
     (conf o = CGetRaise e \/ conf o = CRaise e \/ In (HRaise e) (hooks o) \/
-     exists i, In (i, CARaise e) (custom_defs 0 chain)).
+     (exists i, In (i, CARaise e) (custom_defs 0 chain)) \/
+     (exists i, In (i, PBRaise e) (prov_defs 0 chain))).
 Proof.
-  unfold py_call, py_adapt. rewrite chain_adapt.
-  pose proof (adapt_mro_raise_source (custom_defs 0 chain) o) as HS.
-  destruct (adapt_mro py_default_adapt (custom_defs 0 chain) o) as [lg a].
+  set (k := type_of_chain p chain).
+  assert (HA : k_adapt k = custom_defs 0 chain) by apply chain_adapt.
+  assert (HP : k_prov k = prov_defs 0 chain) by apply chain_prov.
+  unfold py_call, py_adapt. rewrite HA.
+  pose proof (adapt_mro_raise_source k (custom_defs 0 chain) o) as HS. rewrite HP in HS.
+  destruct (adapt_mro (py_default_adapt k) (custom_defs 0 chain) o) as [lg a].
   assert (HF : forall lg0, snd (finish o lg0 a) = RaiseE r ->
      exists e, r = User e /\
     (conf o = CGetRaise e \/ conf o = CRaise e \/ In (HRaise e) (hooks o) \/
-     exists i, In (i, CARaise e) (custom_defs 0 chain))).
+     (exists i, In (i, CARaise e) (custom_defs 0 chain)) \/
+     (exists i, In (i, PBRaise e) (prov_defs 0 chain)))).
   { intros lg0. unfold finish. destruct a as [[[|v]|]|x]; cbn [snd]; try discriminate.
     - destruct (alternate o); discriminate.
-    - intros H. inversion H; subst. destruct (HS lg r eq_refl) as (e & -> & Hs). exists e. tauto. }
+    - intros H. inversion H; subst. destruct (HS lg r eq_refl) as (e & -> & Hs). exists e.
+      unfold raise_source in Hs. tauto. }
   destruct (conf o) as [|e| | |v|e|]; cbn [getattr_conform call_conform apply_conform
     is_attribute_error is_type_error tb_single]; try apply HF.
   - destruct e as [[| |] t]; cbn [e_kind]; try apply HF.
@@ -552,6 +742,7 @@ Lemma custom_adapt_replaces p chain o i b rest :
   custom_defs 0 chain = (i, b) :: rest -> b <> CADelegate ->
   let r := py_call (type_of_chain p chain) o in
   ~ In EvProvided (fst r) /\ (forall j, ~ In (EvHook j) (fst r)) /\
+  (forall j, ~ In (EvCustomProv j) (fst r)) /\
   (forall pr hs, py_call (type_of_chain p chain) (mkObj (conf o) pr hs (alternate o)) = r) /\
   (conform_passes (conf o) = true ->
      In (EvCustom i) (fst r) /\
@@ -561,25 +752,55 @@ Lemma custom_adapt_replaces p chain o i b rest :
              | _ => match alternate o with Some _ => ReturnAlt | None => RaiseCouldNotAdapt end
              end).
 Proof.
-  intros Hd Hb. cbn zeta. repeat split.
-  - intros H. apply lazy_provided in H. destruct H as [_ F]. rewrite Hd in F.
+  intros Hd Hb. cbn zeta.
+  assert (HA : k_adapt (type_of_chain p chain) = (i, b) :: rest) by (rewrite <- Hd; apply chain_adapt).
+  repeat split.
+  - intros H. apply lazy_provided in H. destruct H as (_ & F & _). rewrite Hd in F.
     inversion F as [|? ? Hx _]; subst. apply Hb, Hx.
   - intros j H. apply lazy_hooks in H. destruct H as (_ & _ & _ & F). rewrite Hd in F.
     inversion F as [|? ? Hx _]; subst. apply Hb, Hx.
-  - intros pr hs. unfold py_call, py_adapt. rewrite chain_adapt, Hd.
+  - intros j H. apply lazy_custom_prov in H. destruct H as (_ & F). rewrite Hd in F.
+    inversion F as [|? ? Hx _]; subst. apply Hb, Hx.
+  - intros pr hs. unfold py_call, py_adapt. rewrite HA.
     rewrite !adapt_mro_nondelegate by assumption. cbn [conf alternate]. unfold finish. cbn [alternate].
     reflexivity.
   - destruct (py_call_log_split (type_of_chain p chain) o) as (pre & _ & [[Hc _]|[_ E]]).
     + congruence.
     + rewrite E. apply in_or_app. right. unfold py_adapt.
-      rewrite chain_adapt, Hd, adapt_mro_nondelegate by assumption. cbn. auto.
-  - unfold py_call, py_adapt. rewrite chain_adapt, Hd, adapt_mro_nondelegate by assumption.
+      rewrite HA, adapt_mro_nondelegate by assumption. cbn. auto.
+  - unfold py_call, py_adapt. rewrite HA, adapt_mro_nondelegate by assumption.
     revert H. unfold conform_passes.
     destruct (conf o) as [|e| | |v|e|]; cbn [getattr_conform call_conform apply_conform conform_step
       is_attribute_error is_type_error tb_single snd]; try discriminate;
       try (destruct e as [[| |] t]; cbn [e_kind]; try discriminate);
       intros _; unfold finish; destruct b; try congruence; try reflexivity;
       destruct (alternate o); reflexivity.
+Qed.
+
+(* an overridden providedBy (that does not delegate) is asked instead of the built-in check *)
+Lemma prov_mro_nondelegate i b rest o :
+  b <> PBDelegate ->
+  prov_mro ((i, b) :: rest) o =
+  ([EvCustomProv i], match b with PBTrue => Ok true | PBRaise e => Raise (User e) | _ => Ok false end).
+Proof. intros H. destruct b; try reflexivity. congruence. Qed.
+
+Lemma providedBy_override_replaces p chain o i b rest :
+  prov_defs 0 chain = (i, b) :: rest -> b <> PBDelegate ->
+  ~ In EvProvided (fst (py_call (type_of_chain p chain) o)) /\
+  (forall pr, py_call (type_of_chain p chain) (mkObj (conf o) pr (hooks o) (alternate o)) =
+              py_call (type_of_chain p chain) o).
+Proof.
+  intros Hd Hb. split.
+  - intros H. apply lazy_provided in H. destruct H as (_ & _ & F). rewrite Hd in F.
+    inversion F as [|? ? Hx _]; subst. apply Hb, Hx.
+  - intros pr. rewrite !call_follows_precedence. unfold spec, steps. cbn [conf alternate].
+    assert (HE : forall o', hooks o' = hooks o ->
+              adapt_steps (custom_defs 0 chain) (prov_defs 0 chain) o' =
+              adapt_steps (custom_defs 0 chain) (prov_defs 0 chain) o).
+    { intros o' Hh. induction (custom_defs 0 chain) as [|[j c] t IH]; cbn [adapt_steps].
+      - unfold default_steps. rewrite Hh, Hd. destruct b; try congruence; reflexivity.
+      - destruct c; try reflexivity. rewrite IH. reflexivity. }
+    rewrite (HE (mkObj (conf o) pr (hooks o) (alternate o)) eq_refl). reflexivity.
 Qed.
 
 (* ------------------------------------------------------------------ C = Python *)
@@ -595,9 +816,13 @@ Proof.
     rewrite Nat.add_1_r in IH. rewrite IH. reflexivity.
 Qed.
 
-Lemma c_default_adapt_eq o : c_default_adapt o = py_default_adapt o.
+Lemma c_default_adapt_eq k o : flag_ok k -> c_default_adapt k o = py_default_adapt k o.
 Proof.
-  unfold c_default_adapt, py_default_adapt. destruct (provides o); [reflexivity|].
+  intros (_ & _ & Hp). unfold c_default_adapt, py_default_adapt.
+  assert (HP : (if k_pflag_own k then prov_mro (k_prov k) o else ([EvProvided], Ok (provides o)))
+               = prov_mro (k_prov k) o).
+  { rewrite Hp. destruct (k_prov k); reflexivity. }
+  rewrite HP. destruct (prov_mro (k_prov k) o) as [lp [[|]|x]]; try reflexivity.
   pose proof (c_hook_loop_eq (hooks o) []) as H. cbn [length app] in H. rewrite H. reflexivity.
 Qed.
 
@@ -607,14 +832,14 @@ Proof.
   destruct b; try reflexivity. rewrite IH. reflexivity.
 Qed.
 
-Lemma c_adapt_eq k o : c_adapt k o = py_adapt k o.
-Proof. apply adapt_mro_ext, c_default_adapt_eq. Qed.
+Lemma c_adapt_eq k o : flag_ok k -> c_adapt k o = py_adapt k o.
+Proof. intros H. apply adapt_mro_ext. intros x. apply c_default_adapt_eq, H. Qed.
 
 Lemma c_call_eq_py_call_flag k o : flag_ok k -> c_call k o = py_call k o.
 Proof.
-  intros [Ho _]. unfold c_call, py_call.
-  assert (HA : (if k_flag_own k then c_adapt k o else c_default_adapt o) = py_adapt k o).
-  { rewrite c_adapt_eq, c_default_adapt_eq. rewrite Ho. unfold py_adapt.
+  intros HK. pose proof HK as (Ho & _ & _). unfold c_call, py_call.
+  assert (HA : (if k_flag_own k then c_adapt k o else c_default_adapt k o) = py_adapt k o).
+  { rewrite c_adapt_eq, c_default_adapt_eq by assumption. rewrite Ho. unfold py_adapt.
     destruct (k_adapt k); reflexivity. }
   rewrite HA.
   destruct (getattr_conform (conf o)) as [[u|]|r].
@@ -623,9 +848,13 @@ Proof.
   - destruct (is_attribute_error r); reflexivity.
 Qed.
 
+Lemma c_call_eq_py_call_any p chain o :
+  c_call (type_of_chain p chain) o = py_call (type_of_chain p chain) o.
+Proof. apply c_call_eq_py_call_flag, chain_flag_ok. Qed.
+
 Lemma c_call_eq_py_call chain o :
   c_call (type_of_chain true chain) o = py_call (type_of_chain true chain) o.
-Proof. apply c_call_eq_py_call_flag, chain_flag_ok. Qed.
+Proof. apply c_call_eq_py_call_any. Qed.
 
 Lemma c_call_follows_precedence chain o : c_call (type_of_chain true chain) o = spec chain o.
 Proof. rewrite c_call_eq_py_call. apply call_follows_precedence. Qed.
